@@ -75,6 +75,9 @@ def gen_read(rng, specs):
         s = s[:pos] + a + s[pos:]
     if rng.random() < 0.15:
         s = rnd_seq(rng, rng.randint(1, 12), "A")  # poly-A vs high error rates: negative scores
+    if rng.random() < 0.12:
+        # soft-masked input: what the stage does to the letter case must not depend on --revcomp either
+        s = s.lower() if rng.random() < 0.5 else "".join(c.lower() if rng.random() < 0.4 else c for c in s)
     return s
 
 
@@ -223,7 +226,7 @@ def cli_case(ctx, k):
         post += ["--trim-n"]
     if rng.random() < 0.3:
         post += ["-m", str(rng.randint(1, 12))]
-    recs1, recs2 = G.gen_reads(rng, rng.randint(15, 40), paired, ads1, ads2 or ads1, maxlen=40, revcomp_some=True, nruns=True)
+    recs1, recs2 = G.gen_reads(rng, rng.randint(15, 40), paired, ads1, ads2 or ads1, maxlen=40, revcomp_some=True, nruns=True, lower=rng.random() < 0.3)
     d = os.path.join(ctx.scratch, f"cli{k}")
     os.makedirs(d, exist_ok=True)
     try:
